@@ -170,6 +170,20 @@ def cls_c06(e):
     return out
 
 
+def cls_c07(e):
+    out = []
+    if e["a"] == "Tx:DoubleVoting":
+        a = e["args"]
+        bad = [k for k in ("chainOk", "sameH", "sameR", "sameT", "sameAddr", "blockDiff", "sigA", "sigB") if not a[k]]
+        if a["old"]:
+            bad.append("old")
+        if a["hdrKey"] != a["key"]:
+            bad.append("hdrKey")
+        r = _cons(e, a["c"])
+        out.append("dv_%s_%s_%s_%s" % ("+".join(bad) or "valid", r.get("phase", "unknown"), a["key"][:2], _code(e)))
+    return out
+
+
 def cls_c08(e):
     out = []
     if e["a"] == "Tx:Recv" and e["chain"] == "p" and e["res"].get("code") == 0:
@@ -399,6 +413,15 @@ PROPS = {
             "properties": ["C06_Free", "C08_Outcome"], "classify": cls_c06,
             "rule": "end-blocks by number of keys scheduled for pruning, assignments by phase, slash packets by kind of key",
             "required_classes": {"quick": ["assign_on_launched", "prune_entries_1"]}, "assumptions": []},
+    "C07": {"level": "model_checking",
+            "mc": [{"module": "MC_Evidence.tla", "cfg": "MC_EvidenceQ.cfg", "timeout": 600},
+                   {"module": "MC_Evidence.tla", "cfg": "MC_EvidenceT.cfg", "timeout": 1200, "tier": "thorough"}],
+            "corpora": [{"name": "evidence", "n": {"quick": 12, "thorough": 48}, "seed0": 0, "seeded": False}],
+            "invariants": [], "properties": ["C07_Verdict", "C07_OnlySigner", "C07_RejectedUnchanged", "C07_TombstoneSticky"], "classify": cls_c07,
+            "rule": "double-voting submissions by (mutated fields, consumer phase, kind of key, outcome)",
+            "required_classes": {"quick": ["dv_valid_launched_pk_ok", "dv_valid_launched_k2_ok", "dv_valid_launched_k1_ok", "dv_sigA_launched_pk_rej", "dv_chainOk_launched_pk_rej", "dv_old_launched_pk_rej", "dv_valid_deleted_pk_rej", "dv_valid_registered_pk_rej"]},
+            "assumptions": ["cryptography is abstracted to booleans that the harness realises with real ed25519 votes; forging outside the enumerated mutation classes is not explored",
+                            "light-client-attack misbehaviour (MsgSubmitConsumerMisbehaviour) is not driven by this check: only double-voting evidence is"]},
     "C08": {"level": "model_checking", "mc": MC_SLASH, "corpora": [RANDOM, SCRIPTED], "invariants": ["C08_Outstanding"],
             "properties": ["C08_Outcome", "C08_Params", "C08_AckCarried", "C08_AckOnlyThere", "C08_FlagCleared"], "classify": cls_c08,
             "rule": "slash packets received by the provider by (infraction, acknowledgement), VSC packets carrying slash acks, consumer blocks with outstanding flags / pending slash packets",
@@ -482,6 +505,8 @@ for _p, _t, _n in [
     MANIFEST_TEXT[_p] = {"text": _GEN + ": " + _t + ".", "note": _n}
 MANIFEST_TEXT["C18"] = {"text": "N-version execution: the specification supplies the histories (random driver and scripted scenarios with ties, many consumers and validators) and a trivial agreement invariant that TLC evaluates on the merged observation trace of 3 replicas; this is exploration, not model checking.",
                         "note": "Same-process replicas; transaction bytes are regenerated deterministically per replica rather than copied.", "technique": "replica execution of generated histories + TLC agreement invariant on the observation trace"}
+MANIFEST_TEXT["C07"] = {"text": "MC_Evidence enumerates the mutation lattice of the abstract evidence record x consumer state x key kind x validator state and checks the transcribed chain of checks against the declarative verdict; the harness realises each record with real ed25519 votes (valid record, every single-field mutation, current / assigned / replaced / foreign / unknown keys, twin consumers sharing a chain id, never-launched, stopped and deleted consumers, undelegations and redelegations, repeated submissions) and TLC checks verdict, exactly-the-signer, amounts and rejected-unchanged on the recorded steps.",
+                        "note": "Double-voting evidence only; the misbehaviour (light-client attack) message is not covered. Slash amounts are bounded (consumer fraction x power, plus stake still unbonding), not computed exactly."}
 MANIFEST_TEXT["C16"] = {"text": "TLC evaluates, on states recorded from real consumer and provider applications connected by real CCV and transfer channels, the exact fee split and transmission on the consumer, crediting of the sending consumer, pool solvency, and per-(consumer, denom) payout (only eligible members, proportional to power, commission rate, nothing beyond dust lost, other consumers untouched), including allocations with injected failures.",
                         "note": "Integer abstraction of 18-decimal arithmetic with a tolerance of one unit per participant; scripted reward scenario (two consumers sharing the flow, validator-set changes between crediting and payout) rather than the random driver."}
 MANIFEST_TEXT["C17"] = {"text": "TLC evaluates binding invariants (consumer/client/channel one-to-one, channel built on the consumer's client) on every recorded provider state and the acceptance rule of every handshake step; a scripted scenario drives every deviation (ordering, ports, version, foreign client, provider-initiated, racing handshakes, repeated attempts, second consumer on the same connection) with real IBC proofs, forged channel ends standing for a compromised consumer.",
